@@ -5167,3 +5167,45 @@ twin('C01-twin-output-blob-copied', 'C01',
      [(_FSM, "        output[\"config\"] = safe_config\n",
        "        output = copy.deepcopy(output)\n"
        "        output[\"config\"] = safe_config\n")])
+
+# ----------------------------------------------------------------------
+# round 18 (four changes)
+# ----------------------------------------------------------------------
+mutant('C05-empty-group-pointer-shaped-like-input', 'C05',
+       'csc_to_csr_on_disk writes, for an empty group, a pointer array '
+       'with the shape of the input\'s',
+       [(_CSC, "    transpose_sparse_matrix_on_disk(\n"
+         "        indices_handle=csc_group['indices'],\n",
+         "    if csc_group['indices'].shape[0] == 0:\n"
+         "        with h5py.File(csr_path, 'w') as dst:\n"
+         "            dst.create_dataset(\n"
+         "                'indices', shape=(0,), dtype=int)\n"
+         "            dst.create_dataset(\n"
+         "                'indptr', shape=csc_group['indptr'].shape,\n"
+         "                dtype=int)\n"
+         "        return\n"
+         "    transpose_sparse_matrix_on_disk(\n"
+         "        indices_handle=csc_group['indices'],\n")],
+       'R-AXIS/converted-pointer-extent', 'csc_to_csr_on_disk')
+twin('C05-twin-empty-group-pointer-from-shape', 'C05',
+     'csc_to_csr_on_disk writes, for an empty group, a pointer array of '
+     'array_shape[0] + 1 zeros',
+     [(_CSC, "    transpose_sparse_matrix_on_disk(\n"
+       "        indices_handle=csc_group['indices'],\n",
+       "    if csc_group['indices'].shape[0] == 0 and not use_data_array:\n"
+       "        with h5py.File(csr_path, 'w') as dst:\n"
+       "            dst.create_dataset(\n"
+       "                'indices', shape=(0,),\n"
+       "                dtype=csc_group['indices'].dtype)\n"
+       "            dst.create_dataset(\n"
+       "                'indptr',\n"
+       "                data=np.zeros(array_shape[0]+1, dtype=np.int64))\n"
+       "        return\n"
+       "    transpose_sparse_matrix_on_disk(\n"
+       "        indices_handle=csc_group['indices'],\n")])
+mutant('C11-sparse-lookup-one-type-from-count', 'C11',
+       '_lookup_to_sparse sizes the type of the gene indexes from their '
+       'number',
+       [(_MK, "    indices_dtype = choose_int_dtype((0, max_indices))\n",
+         "    indices_dtype = choose_int_dtype((0, n_indices))\n")],
+       'R-CAP/bound-kind', '_lookup_to_sparse')
